@@ -604,8 +604,7 @@ theorem remove_double_spends_on_bytes {E : MW.LedBytes.Env} {own : Own} (P : Pen
     {ins : List Model.TxmgrCodec.OutPointB} (hw : ∀ o ∈ ins, o.WF = true) (tr : TxRec)
     (hti : tr.tx.ins.map (fun i => (i.tx, i.idx)) = ins.map (nmOP E.N)) :
     absStore E (removeDoubleSpendsB P ins bs) = removeDoubleSpends own (absStore E bs) tr ∧
-    CanonS E (removeDoubleSpendsB P ins bs) := by
-  rw [removeDoubleSpends_ops, hti]; exact removeDoubleSpends_on_bytes P hC hw
+    CanonS E (removeDoubleSpendsB P ins bs) := removeDoubleSpends_tr_on_bytes P hC hw tr hti
 
 /-- (Round 6) `rollback_tx_on_bytes` — THE INNER LOOP OF Rollback ON BYTES (one transaction of one block record):
     existsTxRecord / readTxRecordLoc / FetchTxByFileLoc / Delete; coinbase: per output existsCredit, Delete, the keystore
